@@ -17,7 +17,8 @@ var (
 	gOrders = []string{"~", "0", "100", "100", "150", "-50", "1000", "1", "99999"}
 	gFlags  = []string{"-", "-", "-", "u", "d", "f", "uf", "df", "ud"}
 	gTypes  = []string{"-", "ingress", "egress", "ingress,egress", "Ingress", "EGRESS", "other", "egress,ingress"}
-	gSels   = []string{"all()", "has(a)", "a == 'x'", "a == 'y'", "b == 'x'", "has(a) && !has(c)", "a in {'x','y'}", "role == 'db' || has(c)", "!has(b)", "has(none)"}
+	gSels   = []string{"all()", "has(a)", "a == 'x'", "a == 'y'", "b == 'x'", "has(a) && !has(c)", "a in {'x','y'}", "role == 'db' || has(c)", "!has(b)", "has(none)",
+		"z == 'x'", "z == 'y'", "has(z)", "z != 'x'", "z == 'db' || role == 'x'"}
 )
 
 func genLabels(h *rt.H, keys []string) map[string]string {
@@ -30,8 +31,15 @@ func genLabels(h *rt.H, keys []string) map[string]string {
 	return m
 }
 
+type epGen struct {
+	tag    string
+	profs  []string
+	labels string
+}
+
 func genCase(h *rt.H) []string {
 	ops := []string{"new"}
+	lastEp := map[string]epGen{}
 	n := 15 + h.Intn(66)
 	insyncAt := h.Intn(n/2 + 1)
 	if h.Chance(0.1) {
@@ -57,17 +65,35 @@ func genCase(h *rt.H) []string {
 		case 8:
 			ops = append(ops, "pol-del "+rt.Pick(h, gPols))
 		case 9, 10, 11, 12:
-			// endpoint own labels use keys a,b,role; profile labels use c and pN-specific keys (no
-			// conflicting inherited values between profiles; own labels may override inherited ones)
+			// endpoint own labels use keys a,b,role,c (never z); profiles may set any of c,a,role,z, so two
+			// profiles of one endpoint can disagree on a key: the first one in ProfileIDs order wins
+			k := rt.Pick(h, gEps)
+			if last, ok := lastEp[k]; ok && len(last.profs) >= 2 && h.Chance(0.3) {
+				// pure re-order: same labels, same tag, same profile set, different order
+				profs := append([]string(nil), last.profs...)
+				h.Rng.Shuffle(len(profs), func(i, j int) { profs[i], profs[j] = profs[j], profs[i] })
+				if strings.Join(profs, ",") == strings.Join(last.profs, ",") {
+					profs[0], profs[1] = profs[1], profs[0]
+				}
+				lastEp[k] = epGen{last.tag, profs, last.labels}
+				ops = append(ops, fmt.Sprintf("ep %s %s %s x=%s", k, last.tag, uncsv(profs), last.labels))
+				break
+			}
 			var profs []string
 			for _, p := range gProfs {
-				if h.Chance(0.35) {
+				if h.Chance(0.5) {
 					profs = append(profs, p)
 				}
 			}
-			ops = append(ops, fmt.Sprintf("ep %s %s %s x=%s", rt.Pick(h, gEps), rt.Pick(h, []string{"a", "b", "~"}), uncsv(profs), encLabels(genLabels(h, []string{"a", "b", "role", "c"}))))
+			h.Rng.Shuffle(len(profs), func(i, j int) { profs[i], profs[j] = profs[j], profs[i] })
+			tag := rt.Pick(h, []string{"a", "b", "~"})
+			labels := encLabels(genLabels(h, []string{"a", "b", "role", "c"}))
+			lastEp[k] = epGen{tag, profs, labels}
+			ops = append(ops, fmt.Sprintf("ep %s %s %s x=%s", k, tag, uncsv(profs), labels))
 		case 13:
-			ops = append(ops, "ep-del "+rt.Pick(h, gEps))
+			k := rt.Pick(h, gEps)
+			delete(lastEp, k)
+			ops = append(ops, "ep-del "+k)
 		case 14:
 			if h.Chance(0.7) {
 				ops = append(ops, fmt.Sprintf("rep w:r0 ~ - x=%s", encLabels(genLabels(h, []string{"a", "b"}))))
@@ -77,9 +103,13 @@ func genCase(h *rt.H) []string {
 		case 15, 16:
 			p := rt.Pick(h, gProfs)
 			if h.Chance(0.75) {
-				// each profile contributes its own key set so that two profiles never disagree on a key
-				keys := map[string][]string{"pr0": {"c"}, "pr1": {"a"}, "kns.ns1": {"role"}}[p]
-				ops = append(ops, fmt.Sprintf("plabels %s x=%s", p, encLabels(genLabels(h, append(keys, keys...)))))
+				// profiles draw from a shared key set (z is never an endpoint's own label), so profiles
+				// of one endpoint regularly set the same key to different values
+				l := genLabels(h, []string{"c", "a", "role"})
+				if h.Chance(0.7) {
+					l["z"] = rt.Pick(h, []string{"x", "y", "db"})
+				}
+				ops = append(ops, fmt.Sprintf("plabels %s x=%s", p, encLabels(l)))
 			} else {
 				ops = append(ops, "plabels-del "+p)
 			}
